@@ -92,7 +92,71 @@ def eval_instance(tier, seed=0):
     return {"inits": inits, "ops": ops}
 
 
-INSTANCES = {"MxEval": eval_instance}
+def inherit_instance(tier, seed=0):
+    """Four top-level spaces, cells x < y, an int reference r and an object-valued
+    reference o; every ordered-base DAG on them is reachable by add/remove_bases."""
+    flib = {
+        "X1": F([], [["const", 1], ["read", ["r"]]]),
+        "X2": F([], [["const", 2]]),
+        "Y1": F([], [["const", 10], ["call", ["x"], [], "pos"]]),
+        "Y2": F([], [["const", 20], ["call", ["o", "x"], [], "pos"]]),
+    }
+    sigs = {"x": [], "y": []}
+    sp = [["A"], ["B"], ["C"], ["D"]]
+    rng = random.Random(seed)
+
+    def defs(cells, refs, bases):
+        return {"flib": flib, "sigs": sigs, "sp": sp,
+                "bases": [[p, bases.get(p[0], [])] for p in sp],
+                "cells": [[p, cells.get(p[0], {})] for p in sp],
+                "refs": [[p, refs.get(p[0], {})] for p in sp],
+                "grefs": {}, "pf": [], "inp": [], "an": False, "span": [[p, 0] for p in sp]}
+    C = lambda f: {"f": f, "cached": True, "an": 0}
+    R = lambda v, mode="auto": {"v": v, "mode": mode}
+    inits = [
+        defs({}, {}, {}),
+        defs({"A": {"x": C("X1")}}, {"A": {"r": R(["int", 1, [], ""])}}, {}),
+        defs({"A": {"x": C("X1")}, "B": {"x": C("X2"), "y": C("Y1")}}, {"B": {"r": R(["int", 2, [], ""])}},
+             {"C": [["A"]]}),
+        defs({"A": {"x": C("X1"), "y": C("Y2")}},
+             {"A": {"o": R(["sp", ["A"], [], ""], "relative"), "r": R(["int", 1, [], ""])}}, {"B": [["A"]]}),
+        defs({"A": {"x": C("X1")}, "B": {"y": C("Y1")}},
+             {"A": {"o": R(["ce", ["A"], [], "x"], "auto")}, "B": {"o": R(["sp", ["D"], [], ""], "absolute")}},
+             {"C": [["A"], ["B"]], "D": []}),
+    ]
+    if tier == "quick":
+        inits = inits[1:4]
+    ops = []
+    names = ["A", "B", "C", "D"]
+    for s in names:
+        for b in names:
+            if s != b:
+                ops.append({"op": "add_bases", "s": [s], "bs": [[b]]})
+                ops.append({"op": "remove_bases", "s": [s], "bs": [[b]]})
+    ops.append({"op": "add_bases", "s": ["D"], "bs": [["B"], ["C"]]})
+    ops.append({"op": "add_bases", "s": ["D"], "bs": [["C"], ["B"]]})
+    for s in names:
+        ops.append({"op": "new_cells", "s": [s], "c": "x", "rec": {"f": "X2", "cached": True, "an": 0}})
+        ops.append({"op": "del_cells", "s": [s], "c": "x", "via": "attr"})
+        ops.append({"op": "set_formula", "s": [s], "c": "x", "f": "X1"})
+        ops.append({"op": "set_ref", "s": [s], "n": "r", "v": ["int", 3, [], ""], "mode": "auto", "via": "set_ref"})
+        ops.append({"op": "del_ref", "s": [s], "n": "r"})
+    ops.append({"op": "new_cells", "s": ["A"], "c": "y", "rec": {"f": "Y1", "cached": True, "an": 0}})
+    ops.append({"op": "new_cells", "s": ["B"], "c": "r", "rec": {"f": "X2", "cached": True, "an": 0}})
+    ops.append({"op": "set_ref", "s": ["A"], "n": "o", "v": ["sp", ["A"], [], ""], "mode": "relative", "via": "set_ref"})
+    ops.append({"op": "set_ref", "s": ["A"], "n": "o", "v": ["ce", ["A"], [], "x"], "mode": "auto", "via": "set_ref"})
+    ops.append({"op": "set_ref", "s": ["B"], "n": "o", "v": ["sp", ["D"], [], ""], "mode": "relative", "via": "set_ref"})
+    ops.append({"op": "set_ref", "s": ["B"], "n": "o", "v": ["sp", ["B"], [], ""], "mode": "absolute", "via": "set_ref"})
+    ops.append({"op": "set_ref", "s": ["C"], "n": "x", "v": ["int", 5, [], ""], "mode": "auto", "via": "set_ref"})
+    ops.append({"op": "del_ref", "s": ["A"], "n": "o"})
+    if tier == "quick":
+        rng.shuffle(ops)
+        keep = [o for o in ops if o["op"] in ("add_bases",)][:8] + [o for o in ops if o["op"] != "add_bases" and o["op"] != "remove_bases"][:18] + [o for o in ops if o["op"] == "remove_bases"][:4]
+        ops = keep
+    return {"inits": inits, "ops": ops}
+
+
+INSTANCES = {"MxEval": eval_instance, "MxInherit": inherit_instance}
 
 
 def write_instance(module, tier, path, seed=0):
